@@ -260,8 +260,13 @@ Record rcfg := mkCfg {
   c_enabled : bool;
   c_attempts : nat;        (* safecast.ToUint(RetryMax); the model covers RetryMax >= 1 (0 is retry-go's "retry forever") *)
   c_retry_ctx_err : bool;  (* retryConditionFn applied to ctx.Err() (reached only through the wrapper's context check) *)
-  c_ck : ctxkind           (* how the context ends when it ends *)
+  c_ck : ctxkind;          (* how the context ends when it ends: what ctx.Err() Is *)
+  c_cause : Z              (* identity of the value context.Cause(ctx) reports (WithCancelCause / WithTimeoutCause /
+                              WithDeadlineCause, own or inherited from a parent; 0 = none).  Data only: the code looks at
+                              ctx.Err(), never at the cause, so nothing below depends on it (context_cause_irrelevant). *)
 }.
+Definition with_cause (cfg : rcfg) (c : Z) : rcfg :=
+  mkCfg (c_enabled cfg) (c_attempts cfg) (c_retry_ctx_err cfg) (c_ck cfg) c.
 
 (* one invocation of fn: (index in the script, was the context already done when fn started) *)
 Definition trace := list (nat * bool).
